@@ -1196,6 +1196,9 @@ def run(ck: Ck) -> None:
             'no_unguarded_indexing_conversion_or_unknown_call_on_the_parse_path': 'kv_no_unmodelled_site',
             'parse_path_census_wellformed': 'kv_census_rows_wellformed',
             'error_messages_format_with_the_arguments_passed': 'error_formats_ok',
+            'tokenizer_every_indexing_site_guarded': 'tokenizer_sites_all_guarded',
+            'tokenizer_every_raise_goes_through_self_error': 'tokenizer_raises_only_through_error',
+            'keyvalues_parse_raises_only_KeyValError': 'kvparse_raises_only_keyvalerror',
         }, name='kvinst')
         ck.instance_obligations(BT_IMPORTS, {
             'pushback_list_is_a_stack_LIFO': 'pushback_is_lifo',
